@@ -67,7 +67,15 @@ def _concrete(name, model):
     """Replay for a refuted VC of hy-repr: a short history on the real function after which the module state is not
     what it was, or a later call prints something else than in a fresh state."""
     want = {"sym": "'a", "list": "[1 'b]"}
-    for v in _model_cycles() + [[hm.Symbol("x")], hm.Expression([hm.Symbol("g")])]:
+
+    class _Raiser:
+        pass
+
+    def _boom(x):
+        raise ZeroDivisionError("printer raises")
+    hr.hy_repr_register(_Raiser, _boom)
+    raising = [[hm.Symbol("before"), _Raiser()], hm.Expression([hm.Symbol("g"), [_Raiser()]]), {"k": [_Raiser()]}]
+    for v in _model_cycles() + [[hm.Symbol("x")], hm.Expression([hm.Symbol("g")])] + raising:
         hr._seen.clear()
         hr._quoting = False
         try:
@@ -79,8 +87,11 @@ def _concrete(name, model):
         hr._seen.clear()
         hr._quoting = False
         if got != want or state[0] or state[1]:
-            return {"confirmed": True, "input": "hy.repr of " + repr(type(v).__name__) + " reaching itself through a container, then hy.repr('a), hy.repr([1 'b])",
+            hr._registry.pop(_Raiser, None)
+            what = " containing an object whose registered printer raises" if any(v is r for r in raising) else " reaching itself through a container"
+            return {"confirmed": True, "input": "hy.repr of a " + type(v).__name__ + what + ", then hy.repr('a), hy.repr([1 'b])",
                     "observed": {"later calls": got, "_seen, _quoting afterwards": repr(state)}, "expected": {"later calls": want, "_seen, _quoting afterwards": "(set(), False)"}}
+    hr._registry.pop(_Raiser, None)
     return None
 
 
@@ -127,7 +138,10 @@ def histories(chk):
                 bad.append((k, j, hy.repr(base[j]), fresh[j], set(hr._seen), hr._quoting))
                 break
         chk.ob("rtc/random histories with raising printers: every later successful call prints the fresh-interpreter text; state is empty between calls",
-               not bad, "rtc", "bounded", detail=str(bad[:1]))
+               not bad, "rtc", "bounded", detail=str(bad[:1]),
+               replay=None if not bad else {"confirmed": True, "input": f"history of {bad[0][0] + 1} hy.repr calls (seed {chk.seed}) on nested values, some "
+                                            "containing an object whose registered printer raises, then hy.repr of a base value",
+                                            "observed": repr(bad[0][2:]), "expected": "the fresh-interpreter text, _seen empty, _quoting False"})
     finally:
         hr._registry.pop(Box, None)
         hr._seen.clear()
